@@ -359,6 +359,15 @@ theorem gen_predict_2d_numpy_eq_model (e n : α) (fe fn f1 f2 : List α) (mindis
   calc _ = List.foldl G ([lit 0], [lit 0]) ((List.range f1.length).map (fun j => ((fe.getD j (lit 0), fn.getD j (lit 0)), ((f1 ++ f2).getD j (lit 0), (f1 ++ f2).getD (j + f1.length) (lit 0))))) :=
         List.foldl_map.symm
     _ = _ := by rw [hX]; exact foldl_pair_singleton _ _ _ _ _
+/-- **Bridge.**  `Spline.jacobian` as regenerated from the source (how coordinates and force positions are unpacked, every positional argument of
+    `jacobian_numpy`): rows = observation points, columns = forces, entry = the kernel between them with `self.mindist`. -/
+theorem gen_spline_jacobian_eq_model (e n fe fn : List α) (crest frest : List (List α)) (mindist : α) :
+    Gen.splineJacobian mindist (e :: n :: crest) (fe :: fn :: frest) = splineJac (e.zip n) (fe.zip fn) mindist := rfl
+
+/-- **Bridge.**  `VectorSpline2D.jacobian` as regenerated from the source is the model's block Jacobian with `self.mindist` and `self.poisson`. -/
+theorem gen_vector_spline_jacobian_eq_model (e n fe fn : List α) (crest frest : List (List α)) (mindist poisson : α) :
+    Gen.vectorSplineJacobian mindist poisson (e :: n :: crest) (fe :: fn :: frest) = vectorJac (e.zip n) (fe.zip fn) mindist poisson := rfl
+
 /-- **Bridge.**  `Spline.predict` as regenerated from the source: the fitted force positions are unpacked as (east, north), only the first two query
     arrays are used, and the value at a point is the model's sum over the forces with `self.mindist` and `self.force_`. -/
 theorem gen_spline_predict_eq_model (e n : α) (fe fn forces : List α) (frest crest : List (List α)) (mindist : α)
